@@ -3,6 +3,7 @@ package key
 func H_C19_custom_key_flags() {
 	v := vU8("v")
 	var kf CustomKeyInformationFlags
+	kf.FromBytes(vU8("prev")) // a reused receiver: the decomposition describes the last word only
 	kf.FromBytes(v)
 	vCheck(kf.Value == v, "keyflags/value-kept")
 	var want []string
